@@ -12,7 +12,7 @@ from checks_table import CHECKS, META, NOT_APPLICABLE  # noqa: E402
 props = [json.loads(l)["id"] for l in open(os.path.join(ROOT, "properties.jsonl"))]
 
 hook_commits = subprocess.run(["git", "-C", "/repo", "log", "--format=%h", "--", "pkg/scheduler/verif_hooks.go", "pkg/scheduler/objects/verif_hooks.go",
-                               "pkg/events/verif_hooks.go", "pkg/locking/verif_hooks.go", "pkg/webservice/verif_hooks.go", "pkg/scheduler/ugm/verif_hooks.go", "pkg/scheduler/placement/verif_hooks.go"],
+                               "pkg/events/verif_hooks.go", "pkg/locking/verif_hooks.go", "pkg/webservice/verif_hooks.go", "pkg/scheduler/verif_midcycle_off.go", "pkg/scheduler/ugm/verif_hooks.go", "pkg/scheduler/placement/verif_hooks.go"],
                               stdout=subprocess.PIPE, text=True).stdout.split()
 
 m = {
@@ -20,7 +20,7 @@ m = {
     "setup_cmd": "cd /verif && cp -n /repo/go.sum go.sum; GOFLAGS=-mod=mod GOPROXY=off go test -c -tags verif -o .bin/props.test ./props",
     "hooks": {
         "guard": "verif (Go build tag)",
-        "enable": "go test -tags verif (hook files are //go:build verif, add-only new files named verif_hooks.go)",
+        "enable": "go test -tags verif (hook files are //go:build verif, add-only new files named verif_hooks.go; one interleaving point: two added call lines in pkg/scheduler/partition.go to a function that is empty in verif_midcycle_off.go (//go:build !verif))",
         "baseline_off_cmd": "cd /repo && go build ./... && go test -vet=off -count=1 -timeout 25m ./...",
         "source_commits": sorted(set(hook_commits)),
         "add_only": True,
